@@ -49,7 +49,7 @@ def label_cases(draw):
     what = draw(st.sampled_from(['set_unset', 'set_hier', 'shift_in_out', 'shift_out_in', 'set_keep', 'shift_out_list', 'set_shift_round']))
     perm = draw(st.permutations([0, 1, 2]))[: draw(st.sampled_from([2, 3, 1]))]
     consolidate, axis = draw(st.booleans()), draw(st.integers(0, 1))
-    m = draw(st.sampled_from([3, 2, 4]))
+    m = draw(st.sampled_from([3, 2, 4, 1]))   # (with one or two columns a move with drop=True leaves no data column)
     k0, k1 = draw(st.integers(0, m - 1)), draw(st.integers(0, m - 1))
     n = draw(st.sampled_from([4, 2, 3, 1, 5, 6]))
     cols = []
@@ -114,8 +114,6 @@ def check_labels(case):
     if what == 'set_hier':
         if k0 == k1:
             raise Discard('needs two key columns')
-        if m == 2 and case['axis']:
-            raise Discard('no data column would remain')
         keys = [(r[k0], r[k1]) for r in rows]
         if len({_hk(t) for t in keys}) != n:
             raise Discard('duplicate hierarchical keys')
